@@ -798,6 +798,12 @@ def replay(payload):
                     except Exception as e:
                         got = "raises %s: %s" % (type(e).__name__, e)
                     want_list = members if dup else members + [new]
+                    same_object = any(t is new for t in members)
+                    if dup and not same_object:
+                        # a DIFFERENT object with the same address/port/index: the statement is silent (two such transceivers cannot bind
+                        # their sockets); refusing it is what the code does and the contract says - the replay does not judge it
+                        if got in ("added", "IndexError") and lst.trx_list[:len(members)] == members and len(lst.trx_list) <= len(members) + 1:
+                            continue
                     if got != ("IndexError" if dup else "added") or len(lst.trx_list) != len(want_list) or any(a is not b for a, b in zip(lst.trx_list, want_list)):
                         bad.append({"members": [t.name for t in members], "new": new.name, "observed": [got, [t.name for t in lst.trx_list]],
                                     "expected": ["IndexError" if dup else "added", [t.name for t in want_list]]})
